@@ -406,7 +406,7 @@ class Lexer:
 
             elif state == 6:  # pattern
                 token += ch
-                if token.endswith("//"):
+                if token.endswith("//") and len(token) >= 4:
                     here = SourcePos(fname, line, column - len(token) - 4 + 1)
                     self.tokens.append(Token(token, "pattern", here))
                     token = ""
